@@ -271,6 +271,23 @@ where
             r.reverse();
             orders.push(("reversed", r));
         }
+        if sorted.len() >= 3 {
+            // orders that separate the two leaves of a sibling pair (seed C19b): odd indexes first,
+            // a rotation, and - up to 8 leaves - the first index moved to the end
+            let mut il: Vec<usize> = sorted.iter().copied().filter(|i| i & 1 == 1).collect();
+            il.extend(sorted.iter().copied().filter(|i| i & 1 == 0));
+            if il != sorted {
+                orders.push(("odd-first", il));
+            }
+            let mut rot = sorted.clone();
+            rot.rotate_left(1);
+            orders.push(("rotated", rot));
+            if n <= 8 {
+                let mut sw = sorted.clone();
+                sw.swap(1, 2);
+                orders.push(("swap-1-2", sw));
+            }
+        }
         for (tag, idx) in orders {
             let (leaves, proof) = tree.prove_batch(&idx).unwrap();
             let c = Case { root: *tree.root(), idx, leaves, proof };
@@ -365,7 +382,7 @@ pub fn run(args: &Args) {
     }
     s.into_report(
         "every single fault of every honest opening",
-        json!({"tree_sizes": sizes, "subsets": "all non-empty index subsets, sorted and reversed", "must_reject": ["Leaf", "Index", "SwapIndexes", "Node", "OutOfRange", "Duplicate", "AppendDuplicate", "Root"],
+        json!({"tree_sizes": sizes, "subsets": "all non-empty index subsets; sorted, reversed, odd-first, rotated (and one transposition up to 8 leaves)", "must_reject": ["Leaf", "Index", "SwapIndexes", "Node", "OutOfRange", "Duplicate", "AppendDuplicate", "Root"],
                "must_not_panic": ["Depth 0..9,31,32,62..65,127,128,255", "DropNodeVec", "AddEmptyNodeVec", "AddNodeVec", "EmptyNodeVec", "ExtendNodeVec", "TruncateNodeVec", "AllNodeVecsEmpty", "NoNodeVecs", "LeavesShorter", "LeavesLonger", "LeavesEmpty", "IndexesEmpty", "IndexesShorter", "IndexesLonger"],
                "entry_points": ["verify", "verify_batch", "get_root", "into_openings", "prove_batch", "prove", "new"]}),
         &mut report,
